@@ -606,9 +606,12 @@ class Program:
             return True
         # iterator helper classes: every member
         for pre in ("std::reverse_iterator", "__gnu_cxx::__normal_iterator", "std::numeric_limits",
-                    "std::multiplies", "std::allocator"):
+                    "std::multiplies"):
             if q.startswith(pre):
                 return True
+        if q in ("std::allocator::allocator", "std::allocator::~allocator", "std::allocator::operator=",
+                 "std::allocator::deallocate", "std::allocator_traits::deallocate", "std::__new_allocator::deallocate"):
+            return True     # construction/copy of the stateless allocator and deallocation do not raise; allocate does
         if cal.get("mkind") == "dtor":
             return True
         return False
@@ -981,3 +984,65 @@ def eval_const_cond(f, cond, consts):
     if val is None:
         return None
     return (not val) if neg else val
+
+
+# --------------------------------------------------------------------------
+# relational normal form of branch conditions (integer semantics)
+# --------------------------------------------------------------------------
+def rel_canon(f, c, atomize=None):
+    """leaf comparison -> (Poly, rel) with rel in {'<0', '==0', '!=0'} meaning `Poly rel`, or None.
+    Integer semantics: A <= B  ==  A - B - 1 < 0.  Logical negation is folded in."""
+    c, neg = cond_polarity(f, c)
+    n = f.nodes[c]
+    if n["k"] == "CXXOperatorCallExpr" and n.get("opcall") in ("<", "<=", ">", ">=", "==", "!="):
+        op = n["opcall"]
+        a, b = n["ch"][1], n["ch"][2]
+    elif n["k"] == "BinaryOperator" and n["op"] in ("<", "<=", ">", ">=", "==", "!="):
+        op = n["op"]
+        a, b = n["ch"]
+    else:
+        return None
+    pa, pb = poly(f, a, atomize), poly(f, b, atomize)
+    if neg:
+        op = {"<": ">=", "<=": ">", ">": "<=", ">=": "<", "==": "!=", "!=": "=="}[op]
+    one = Poly.const(1)
+    if op == "<":
+        return (pa - pb, "<0")
+    if op == "<=":
+        return (pa - pb - one, "<0")
+    if op == ">":
+        return (pb - pa, "<0")
+    if op == ">=":
+        return (pb - pa - one, "<0")
+    return (eq_norm(pa - pb), "==0" if op == "==" else "!=0")
+
+
+def eq_norm(d):
+    """sign-normalise the polynomial of an (in)equation P == 0 / P != 0: the last monomial in sorted order gets a positive coefficient."""
+    ks = sorted(d.t.items(), key=lambda kv: (len(kv[0]), kv[0]))
+    if ks and ks[-1][1] < 0:
+        return -d
+    return d
+
+
+def cond_leaves(f, c):
+    """split a condition into (connective, [leaf nodes]): connective in {'leaf','&&','||'} (flat, one level of nesting folded)."""
+    c = f.strip(c)
+    n = f.nodes[c]
+    if n["k"] == "BinaryOperator" and n["op"] in ("&&", "||"):
+        op = n["op"]
+        out = []
+        for x in n["ch"]:
+            x = f.strip(x)
+            if f.nodes[x]["k"] == "BinaryOperator" and f.nodes[x]["op"] == op:
+                out += cond_leaves(f, x)[1]
+            else:
+                out.append(x)
+        return op, out
+    return "leaf", [c]
+
+
+def then_throws(f, ifnode):
+    """the then-branch of the IfStmt ends in a throw on every path (single statement or compound ending in throw)."""
+    t = f.nodes[ifnode]["then"]
+    return any(f.k(x) == "CXXThrowExpr" for x in f.walk(t)) and not any(f.k(x) in ("ReturnStmt", "BreakStmt", "ContinueStmt") for x in f.walk(t))
